@@ -335,7 +335,7 @@ IMPL('impl<State, B> Call<State, B>', raw='''
         &&& self.state.writer.wf()
         &&& (self.state.reader matches Some(r) ==> reader_wf(r))
         &&& self.request.headers.view().len() + (if self.analyzed { 0int } else { 2 }) <= crate::client::MAX_EXTRA_HEADERS
-        &&& self.request.unset.view().len() <= 3
+        &&& self.request.unset.view().len() <= 4
     }
     /// C02's quantifier: the request can name its host (absolute URI, or an explicit Host header)
     pub open spec fn has_host_source(&self) -> bool {
@@ -412,3 +412,83 @@ IMPL('impl BodyState')
 FN('need_response_body', props=['C06', 'C09'], ret='r',
    ensures=[('C06.need_body', 'r == !(self.reader == Some(BodyReader::NoBody) || self.reader == Some(BodyReader::LengthDelimited(0)))')])
 END()
+
+# ------------------------------------------------------------------ Call<WithoutBody>
+RAW('''
+/// C02 / C17: what a head-writing call returns, in terms of the request AFTER analysis.
+/// `emitted` = the first n bytes of the caller's output buffer.
+pub open spec fn post_write_head<S, B>(pre: &Call<S, B>, post: &Call<S, B>, emitted: Seq<u8>, r_ok: bool, err: Option<Error>) -> bool {
+    if r_ok {
+        &&& post.analyzed && (pre.analyzed ==> post.request == pre.request)
+        &&& head_step(&post.request, pre.state.phase, post.state.phase, emitted)
+        &&& post.state.reader == pre.state.reader && post.state.skip_method_body_check == pre.state.skip_method_body_check && post.state.stop_on_chunk_boundary == pre.state.stop_on_chunk_boundary
+        &&& (pre.analyzed ==> post.state.writer == pre.state.writer)
+    } else {
+        // nothing was emitted and the call can be repeated: the phase is unchanged
+        &&& post.state.phase == pre.state.phase
+        &&& (err == Some(Error::OutputOverflow) || (!pre.analyzed && *post == *pre))
+    }
+}
+''')
+IMPL('impl<B> Call<WithoutBody, B>')
+FN('into_send_body', props=['C09'], ret='r', mutself=True,
+   requires=[('aux.into_send_body.not_analyzed', '!self.analyzed')],
+   ensures=[('C09.send_body_despite_method_defaults_chunked', '''r.request == self.request && !r.analyzed && r.state.phase == self.state.phase && r.state.reader == self.state.reader
+            && r.state.skip_method_body_check && r.state.stop_on_chunk_boundary == self.state.stop_on_chunk_boundary && r.state.writer.mode is Chunked && !r.state.writer.ended''')])
+FN('write', props=['C02', 'C17', 'C01', 'C16'], ret='r',
+   requires=[
+       ('aux.Call.write.wf', 'old(self).wf()'),
+       ('aux.Call.write.sending', 'old(self).state.phase is SendLine || old(self).state.phase is SendHeaders || old(self).state.phase is SendBody'),
+       ('C02.quantifier_request_names_its_host', 'old(self).has_host_source()'),
+       ('aux.Call.write.phase_ok', 'if old(self).analyzed { phase_ok(&old(self).request, old(self).state.phase) } else { old(self).state.phase is SendLine }'),
+   ],
+   ensures=[
+       ('aux.Call.write.frame', 'final(output).len() == old(output).len() && final(self).wf() && (final(self).analyzed ==> phase_ok(&final(self).request, final(self).state.phase)) && final(self).has_host_source()'),
+       ('C02.head_bytes', '''match r {
+            Ok(n) => n <= old(output).len() && post_write_head(old(self), final(self), final(output)@.subrange(0, n as int), true, None),
+            Err(e) => post_write_head(old(self), final(self), Seq::<u8>::empty(), false, Some(e)),
+        }'''),
+       ('C17.rejected_before_any_byte', 'r is Err && !(r->Err_0 == Error::OutputOverflow) ==> *final(self) == *old(self) && final(output)@ == old(output)@'),
+       ('C02.maximal', 'r is Ok && (final(self).state.phase is SendLine || final(self).state.phase is SendHeaders) ==> r->Ok_0 + next_line(&final(self).request, final(self).state.phase).len() > old(output).len()'),
+       ('C02.complete_head_emits_nothing', 'old(self).analyzed && old(self).state.phase is SendBody ==> r == Ok::<usize, Error>(0usize) && final(self).state.phase is SendBody'),
+   ],
+   after=[('self.analyze_request()?;', 'proof { lemma_analysis_gives_a_header(old(self), self); }'),
+          ('let output_used = w.len();', '''proof {
+            assert(w.out().subrange(0, w.out().len() as int) =~= w.out());
+            assert(w.fin().subrange(0, output_used as int) =~= w.out());
+        }''')],
+   )
+FN('is_finished', props=['C09', 'C02'], ret='r', ensures=[('aux.WithoutBody.is_finished', 'r == !(self.state.phase is SendLine || self.state.phase is SendHeaders)')])
+FN('into_receive', props=['C09'], ret='r',
+   ensures=[('C09.into_receive_iff_body_finished', '''if self.state.writer.ended {
+                r is Ok && r->Ok_0.request == self.request && r->Ok_0.analyzed == self.analyzed && r->Ok_0.state.phase == Phase::RecvResponse
+                && r->Ok_0.state.writer == self.state.writer && r->Ok_0.state.reader == self.state.reader
+                && r->Ok_0.state.skip_method_body_check == self.state.skip_method_body_check && r->Ok_0.state.stop_on_chunk_boundary == self.state.stop_on_chunk_boundary
+            } else { r == Err::<Call<RecvResponse, B>, Error>(Error::UnfinishedRequest) }''')])
+END()
+
+PROOF('lemma_analysis_gives_a_header', ['C02', 'C17'], '''
+/// after a successful analysis of a request that can name its host there is at least one effective header (Host)
+pub proof fn lemma_analysis_gives_a_header<S, B>(pre: &Call<S, B>, post: &Call<S, B>)
+    requires Call::<S, B>::post_analyze(pre, post, Ok(())), pre.has_host_source(), pre.analyzed ==> pre.request.eff().len() >= 1
+    ensures post.request.eff().len() >= 1, post.has_host_source(),
+        pre.analyzed ==> post.request == pre.request,
+{
+    axiom_literals();
+    if !pre.analyzed {
+        let info = spec_analyze(pre.request.request.spec_method(), pre.request.request.spec_version(), pre.request.eff(), pre.state.writer, pre.state.skip_method_body_check)->Ok_0;
+        let uri_host = pre.request.eff_uri().spec_host();
+        assert(post.request.kept() == pre.request.kept());
+        if info.req_host_header {
+            crate::http::lemma_first_value_some_len(pre.request.eff(), lit("host"));
+            assert(post.request.eff().len() >= pre.request.eff().len());
+            crate::http::lemma_first_value_prefix(pre.request.added(), pre.request.kept(), post.request.added(), lit("host"));
+        } else {
+            assert(uri_host is Some) by { crate::http::lemma_first_value_some_len(pre.request.eff(), lit("host")); }
+            assert(post.request.added().len() >= pre.request.added().len() + 1);
+        }
+    } else {
+        crate::http::lemma_first_value_some_len(pre.request.eff(), lit("host"));
+    }
+}
+''')
